@@ -390,6 +390,7 @@ type c19Relay struct {
 	Nack    bool
 	Target  string // never ack@1 ack@pt- ack@pt+ twice foreign foreign+own
 	SendErr string `json:",omitempty"` // answer of the relay's transport to its ping: "" (sent), "local", "remote"
+	Score   int    `json:",omitempty"` // the relay's own health score when the request arrives
 }
 
 func c19RunRelay(t *testing.T, c c19Relay) (sig, msg string) {
@@ -401,6 +402,7 @@ func c19RunRelay(t *testing.T, c c19Relay) (sig, msg string) {
 		for o.M.VBroadcasts().NumQueued() > 0 {
 			o.M.VGetBroadcasts(0, 1400)
 		}
+		o.M.VApplyAwarenessDelta(c.Score) // a relay that is itself degraded keeps the same deadlines towards others
 		seqBefore := o.M.VSnapshot().SeqNo
 		const R = 7777
 		req := &ml.VIndirectPingReq{SeqNo: R, Target: ip4(2), Port: 7946, Node: "x", Nack: c.Nack, SourceAddr: ip4(50), SourcePort: 7946, SourceNode: "q"}
@@ -791,19 +793,20 @@ func TestC19(t *testing.T) {
 		}
 	}
 	type relayCell struct {
-		nk bool
-		tg string
-		se string
+		nk    bool
+		tg    string
+		se    string
+		score int
 	}
 	var relays []relayCell
 	for _, nk := range []bool{false, true} {
 		for _, tg := range []string{"never", "ack@1", "ack@pt-", "ack@pt+", "twice", "foreign", "foreign+own"} {
-			relays = append(relays, relayCell{nk, tg, ""})
+			relays = append(relays, relayCell{nk, tg, "", 0}, relayCell{nk, tg, "", 3})
 		}
 		// the relay's own transport refuses the ping to the target: nothing can come back
-		relays = append(relays, relayCell{nk, "never", "local"}, relayCell{nk, "never", "remote"})
+		relays = append(relays, relayCell{nk, "never", "local", 0}, relayCell{nk, "never", "remote", 0})
 		// ... and an ack carrying the relay's fresh number arrives all the same (a guessable counter)
-		relays = append(relays, relayCell{nk, "ack@1", "local"}, relayCell{nk, "twice", "remote"})
+		relays = append(relays, relayCell{nk, "ack@1", "local", 0}, relayCell{nk, "twice", "remote", 3})
 	}
 	for _, rc := range relays {
 		{
@@ -812,7 +815,7 @@ func TestC19(t *testing.T) {
 			if !mine(idx) {
 				continue
 			}
-			c := c19Relay{nk, tg, rc.se}
+			c := c19Relay{nk, tg, rc.se, rc.score}
 			journal("C19 relay %v", c)
 			sig, msg := c19RunRelay(t, c)
 			rep.Transitions++
